@@ -176,14 +176,14 @@ def check_C08(ctx):
 
 
 # ------------------------------------------------------------------ C05
-def tlc_cases(ctx, cfg, timeout=3000):
-    """Run Pipeline.tla with the Emit invariant; returns path of an ndjson file with the printed cases."""
-    r = ctx.tlc("Pipeline", cfg=cfg, workers=NCPU, timeout=timeout, heap="16g")
+def tlc_cases(ctx, cfg, timeout=3000, module="Pipeline"):
+    """Run a spec with the Emit invariant; returns path of an ndjson file with the printed cases."""
+    r = ctx.tlc(module, cfg=cfg, workers=NCPU, timeout=timeout, heap="16g")
     path = os.path.join(ctx.sub("cases"), cfg + ".ndjson")
     n = 0
     with open(path, "w") as f:
         for m in re.finditer(r'^<<"CASE", "(.*)">>$', r["out"], re.M):
-            f.write(m.group(1).replace('\\"', '"') + "\n")
+            f.write(m.group(1).replace('\\"', '"').replace("\\\\", "\\") + "\n")
             n += 1
     if n == 0:
         raise ToolError("Pipeline.tla emitted no cases (%s)" % cfg)
@@ -237,6 +237,20 @@ def check_C05(ctx):
                 [x["t"] for x in e["in"]], e["want"], e["got"], e["leak"], e["frame"], e["hung"], e["panic"]), dict(kind="fx", case=dict(**{"in": e["in"], "out": [
                     (dict(t=w.split(":")[0], v=(w.split(":")[1] if w.startswith("lbl") else int(w.split(":")[1]))) if ":" in w else dict(t=w, v=0)) for w in e["want"]]})))
         ctx.sample(read_line(path, min(n, 4000)))
+    # (2b) the lexer: every rune-class input up to L, replayed through the real lexer
+    lsfx = "" if ctx.quick else "_thorough"
+    path, n, r3 = tlc_cases(ctx, "Lexer_emit%s.cfg" % lsfx, module="Lexer")
+    total_cases += n
+    outp = os.path.join(ctx.sub("lx"), "lx")
+    st = ctx.harness_json(["lx", "-in", path, "-out", outp])
+    if st["cases"] != n and st["mismatches"] == 0:
+        raise ToolError("lx replayed %d of %d cases" % (st["cases"], n))
+    for e in read_lines(outp + ".000.ndjson")[:40]:
+        kind = "leak" if e["leak"] else ("hung" if e["hung"] else ("panic" if e["panic"] else "output"))
+        ctx.violation("C05 lexer %s" % kind, "lexer on runes %s: expected %s, got %s (leak=%d %s hung=%d panic=%s)" % (e["in"], e["want"], e["got"], e["leak"], e["frame"], e["hung"], e["panic"]),
+                      dict(kind="lx", case=dict(**{"in": e["in"], "out": [(w.split(":", 1) if ":" in w else [w, ""]) for w in e["want"]]})))
+    ctx.notes["lexer_cases_replayed"] = n
+    ctx.sample(read_line(path, min(n, 5000)))
     # (3) EQU graphs
     egp = os.path.join(ctx.sub("eg"), "eg")
     crashes = run_restartable(ctx, "equgraphs", [], egp)
@@ -288,6 +302,17 @@ def replay_fuzz(ctx, payload):
     ctx.cov["traces_validated_against_impl"] = 7
     if rej:
         ctx.violation(payload["signature"], payload["what"], dict(kind="fuzz", b64=payload["b64"], cfg=payload.get("cfg", 0)))
+
+
+def replay_lx(ctx, payload):
+    d = ctx.sub("replay")
+    src = os.path.join(d, "case.ndjson")
+    open(src, "w").write(json.dumps(payload["case"]) + "\n")
+    st = ctx.harness_json(["lx", "-in", src, "-out", os.path.join(d, "o")])
+    ctx.cov["evaluations"] = 1
+    ctx.cov["traces_validated_against_impl"] = 1
+    if st["mismatches"]:
+        ctx.violation(payload["signature"], payload["what"], dict(kind="lx", case=payload["case"]))
 
 
 def replay_fx(ctx, payload):
